@@ -583,6 +583,13 @@ def yield_(ex, st, th, a):
 
 # ---------------------------------------------------------------- harness intrinsics
 def _fresh(ex, st, name, w, kind='in'):
+    if ex.concolic_tape is not None and st.cmodel is not None:
+        v = ex.concolic_tape[st.nin] if st.nin < len(ex.concolic_tape) else 0
+        st.nin += 1
+        nm = '%s#%d.%d' % (name, st.nin, w)
+        st.inputs.append((nm, w, kind))
+        st.cmodel[nm] = v & ((1 << w) - 1)
+        return X.var(nm, w)
     if ex.tape is not None:
         v = ex.tape[st.nin] if st.nin < len(ex.tape) else 0
         st.nin += 1
@@ -707,6 +714,19 @@ def vp_watch(ex, st, th, a):
     o = st.find(addr)
     if o is not None:
         st.watch[o.base] = [addr - o.base, addr - o.base + n, set(), ex.cstring(st, a[2])]
+
+
+@model('vp_concolic_stop')
+def vp_concolic_stop(ex, st, th, a):
+    if st.cmodel is not None:
+        st.model = dict(st.cmodel)
+        st.cmodel = None
+
+
+@model('vp_concrete')
+def vp_concrete(ex, st, th, a):
+    """complete enumeration of the feasible values of a (small-range) symbolic value: one path per value"""
+    return ex.need_int(st, a[0], 'vp_concrete')
 
 
 @model('vp_is_symbolic')
